@@ -230,24 +230,26 @@ class PolyChordOptimizer(Optimizer):
                         break
 
         # opening cluster files (or global file if no clustering) and get MAP, mean, sigma for parameters
-        if self.do_clustering:
-            for midx in range(num_clusters):
-                # cycling through cluster files
-                data = np.loadtxt(os.path.join(
-                    self.dir_polychord, 'clusters/1-_{0}.txt'.format(midx+1)))
-                # find maximum likelihood index
-                mL_idx = np.where(data[:, 1] == np.min(data[:, 1]))
-                stats['modes'][midx]['maximum a posterior'] = {}
-                stats['modes'][midx]['mean'] = {}
-                stats['modes'][midx]['sigma'] = {}
-                for idx in range(len(self.fit_names)):
-                    # cycle through parameters
-                    # maximum likelihood values
-                    stats['modes'][midx]['maximum a posterior'][idx] = data[mL_idx[0][0], 2+idx]
-                    # weighted average and sigma
-                    mu, sig = weighted_avg_and_std(data[:, 2+idx], data[:, 0])
-                    stats['modes'][midx]['mean'][idx] = mu
-                    stats['modes'][midx]['sigma'][idx] = sig
+        for midx in range(num_clusters):
+            # cycling through cluster files
+            if self.do_clustering:
+                filename = 'clusters/1-_{0}.txt'.format(midx+1)
+            else:
+                filename = '1-.txt'
+            data = np.loadtxt(os.path.join(self.dir_polychord, filename))
+            # find maximum likelihood index
+            mL_idx = np.where(data[:, 1] == np.min(data[:, 1]))
+            stats['modes'][midx]['maximum a posterior'] = {}
+            stats['modes'][midx]['mean'] = {}
+            stats['modes'][midx]['sigma'] = {}
+            for idx in range(len(self.fit_names)):
+                # cycle through parameters
+                # maximum likelihood values
+                stats['modes'][midx]['maximum a posterior'][idx] = data[mL_idx[0][0], 2+idx]
+                # weighted average and sigma
+                mu, sig = weighted_avg_and_std(data[:, 2+idx], data[:, 0])
+                stats['modes'][midx]['mean'][idx] = mu
+                stats['modes'][midx]['sigma'][idx] = sig
 
         return stats
 
